@@ -333,6 +333,25 @@ class ResolveStream(runner.Stream):
             b2 = b.replace(vals, f"IMPORTS {lo}, {hi} FROM Lib;")
             out.append(f"resolve subst {hx(a2)},{hx(lib)} {hx(b2)},{hx(lib)} regress:ref_named_min_max:eq")
             out.append(f"resolve subst {hx(lib)},{hx(a2)} {hx(lib)},{hx(b2)} regress:ref_named_min_max:eq")
+        # a value assignment whose GOVERNING type is constrained by a reference — local, imported by name, imported
+        # by object identifier: resolves like the literal module
+        caps = "Caps%s DEFINITIONS AUTOMATIC TAGS ::= BEGIN\ncap INTEGER ::= 100\nklen INTEGER ::= 2\nEND"
+        body = ("limit INTEGER (0..%s) ::= 40\nfloor INTEGER (-5..%s, ...) ::= -1\nkey OCTET STRING (SIZE(%s)) ::= 'AABB'H\n"
+                "tag-text UTF8String (SIZE(1..%s)) ::= \"ab\"\nUse ::= SEQUENCE { n INTEGER (0..%s) DEFAULT limit }")
+        for where in ("local", "byname", "byoid"):
+            if where == "local":
+                pre = "cap INTEGER ::= 100\nklen INTEGER ::= 2\n"
+                mods_a = [f"Limits DEFINITIONS AUTOMATIC TAGS ::= BEGIN\n{pre}{body % ('cap', 'cap', 'klen', 'klen', 'cap')}\nEND"]
+                mods_b = [f"Limits DEFINITIONS AUTOMATIC TAGS ::= BEGIN\n{pre}{body % (100, 100, 2, 2, 100)}\nEND"]
+            else:
+                frm = "Caps" if where == "byname" else "Elsewhere { 1 2 55 }"
+                lib = caps % ("" if where == "byname" else " { 1 2 55 }")
+                pre = f"IMPORTS cap, klen FROM {frm};\n"
+                mods_a = [f"Limits DEFINITIONS AUTOMATIC TAGS ::= BEGIN\n{pre}{body % ('cap', 'cap', 'klen', 'klen', 'cap')}\nEND", lib]
+                mods_b = [f"Limits DEFINITIONS AUTOMATIC TAGS ::= BEGIN\n{pre}{body % (100, 100, 2, 2, 100)}\nEND", lib]
+            for order in ([0, 1], [1, 0]) if len(mods_a) == 2 else ([0],):
+                out.append("resolve subst " + ",".join(hx(mods_a[i]) for i in order) + " " + ",".join(hx(mods_b[i]) for i in order)
+                           + " regress:governing_type_ref:eq")
         # a name imported FROM a module that is not loaded, while an unrelated loaded module defines a value of
         # that name: an unresolved reference, never the other module's value
         tele = ("Telemetry DEFINITIONS AUTOMATIC TAGS ::= BEGIN\nIMPORTS frame-limit FROM Telemetry-Limits;\n"
